@@ -172,6 +172,33 @@ class KeyInst(BaseInstance):
         return tree[0][0], tree[0][1], tree[1]
 
 
+def _key_relops(inst, eng, st, fr, stmt, c, args, keyof):
+    """<K as PartialEq>::{eq,ne}, <K as PartialOrd>::{lt,le,gt,ge} (and the &K forms) for the instantiation's key order"""
+    m = re.match(r'^<(&*)K as (PartialEq|PartialOrd)(?:<.*>)?>::(eq|ne|lt|le|gt|ge)$', c)
+    if not m:
+        return NotImplemented
+    a, b = args
+    for _ in range(len(m.group(1)) + 1):
+        a = eng.read(st, a)
+        b = eng.read(st, b)
+    inst.callback(eng, st, 'cmp', [a, b])
+    ka, kb = keyof(a), keyof(b)
+    op = m.group(3)
+    r = {'eq': lambda: b_eq(ka, kb), 'ne': lambda: b_not(b_eq(ka, kb)), 'lt': lambda: b_ult(ka, kb), 'le': lambda: b_ule(ka, kb),
+         'gt': lambda: b_ult(kb, ka), 'ge': lambda: b_ule(kb, ka)}[op]()
+    return eng.ret_value(st, fr, stmt, r)
+
+
+for _cls, _keyof in ((MapInst, lambda k: k), (SetInst, lambda k: k), (KeyInst, lambda k: k[0])):
+    def _wrap(orig, keyof):
+        def user_intrinsic(s, eng, st, fr, stmt, callee, args):
+            r = orig(s, eng, st, fr, stmt, callee, args)
+            if r is NotImplemented:
+                r = _key_relops(s, eng, st, fr, stmt, callee, args, keyof)
+            return r
+        return user_intrinsic
+    _cls.user_intrinsic = _wrap(_cls.user_intrinsic, _keyof)
+
 INSTANCES = {'map': MapInst, 'set': SetInst, 'key': KeyInst}
 
 
